@@ -50,6 +50,7 @@ class ExpressionParser {
   private:
     RecursiveParser *parser_; // 親パーサーへの参照
     std::unique_ptr<PrimaryExpressionParser> primary_expression_parser_;
+    int nesting_depth_ = 0; // 式のネストの深さ（スタック枯渇の防止）
 };
 
 #endif // EXPRESSION_PARSER_H
